@@ -50,7 +50,7 @@ def gen_sense(rng):
     else:
         asc, ascq = rng.randrange(256), rng.randrange(256)
     if rng.random() < 0.6:
-        return S.fixed(key, asc, ascq, valid=rng.randrange(2), info=rng.randrange(1 << 32), length=rng.choice([18, 18, 20, 32, 64, 96, 252]))
+        return S.fixed(key, asc, ascq, valid=rng.randrange(2), info=rng.randrange(1 << 32), length=rng.choice([18, 18, 20, 32, 64, 96, 252, 14, 14, 13, 15, 17]))
     return S.descriptor(key, asc, ascq, length=rng.choice([8, 8, 12, 20, 32, 60]))
 
 
